@@ -637,6 +637,17 @@ def run(tier, replay=None):
                           {"side": "trace", "who": who, "outcome": "trace_rejected"}, rp)
     ctx.cov["traces_validated_against_impl"] = acc
     ctx.cov["trace_events"] = tot
+    # binding demonstration: an accepted log whose Api record is turned into a false success must be rejected by the monitor
+    demo = next((ev for (i, ev) in kept if ev[0]["half"] == "r" and ev[0]["len"] < ev[0]["need"] and ev[-1]["res"] == "err"), None)
+    if demo is None:
+        raise ToolError("no truncated reader log in the validated sample")
+    forged = [dict(e) for e in demo]
+    forged[-1] = dict(forged[-1], res="ok", eq=True)
+    okd, _, _, rd = core.validate_events("Trace_IoFaults", {}, forged, invariants=("Track", "Props", "Contracts"), timeout=600)
+    ctx.note_tlc("trace binding-demonstration", rd)
+    if okd or rd.violated != "Props":
+        raise ToolError("Trace_IoFaults accepts a truncated run that reports success (the monitor does not discriminate)")
+    ctx.add("binding_demonstrations_rejected", 1)
 
     # ---------------- evidence
     ctx.cov["evaluations"] = len(jobs) + len(wjobs)
